@@ -842,7 +842,7 @@ def _rebuild(x):
     return AnnotatedSequence(Annotation(feats), NucleotideSequence(str(x.sequence), ambiguous=amb), int(x.sequence_start))
 
 
-_READS = ("show", "aslice", "slice", "int", "getf", "has", "count", "range", "kept")
+_READS = ("show", "aslice", "slice", "int", "getf", "has", "count", "range")
 
 
 def _generic_checks(case):
@@ -1251,7 +1251,7 @@ def _gen_feature(rng):
         f = (rng.randint(0, 3), 0, locs)
         total = sum(l - a + 1 for a, l, _, _ in locs)
         x = "".join(rng.choice(alpha) for _ in range(total))
-        ops += [f"getf {_feat_s(f)}", f"setf {_feat_s(f)} {x}", f"getf {_feat_s(f)}"]
+        ops += [f"keepf {_feat_s(f)}", f"setf {_feat_s(f)} {x}", "kept", f"getf {_feat_s(f)}"]
     # an overlapping (but tie-free) feature is read only
     ost = rng.choice("+-")
     l1 = _rand_loc(rng, start, start + n - 1, ost, 0)
@@ -1401,7 +1401,7 @@ def _exhaustive(max_len):
                 if start <= f and l < end:
                     x = ("TGCA" * 3)[:l - f + 1]
                     feat = _feat_s((0, 0, [(f, l, st, d)]))
-                    yield _case("feature", start, letters, [], [f"getf {feat}", f"setf {feat} {x}", f"getf {feat}", "show",
+                    yield _case("feature", start, letters, [], [f"keepf {feat}", f"setf {feat} {x}", "kept", f"getf {feat}", "show",
                                                               "revcomp 1", f"revcomp {start}", "copy", f"cp_setint {f} {'A' if x[0] != 'A' else 'C'}", "show", "cp_show"])
 
 
